@@ -103,7 +103,8 @@ def constraints(st, Lk, X):
     out = []
     for a in st:
         if a[0] == "rel" and a[2] in REL:
-            ks = (a[1], a[3])
+            keep = key_vars_k(Lk) if Lk is not None else ()
+            ks = (subst_defs(a[1], st, keep=keep), subst_defs(a[3], st, keep=keep))
         elif a[0] == "cmp" and a[2] in REL:
             ks = (a[1], ("i", a[3]))
         else:
@@ -141,6 +142,20 @@ def feasible_grid(cons, Lk):
             except NoValue:
                 return None
     return out
+
+
+def subst_defs(k, st, depth=0, keep=()):
+    """replace locals that still hold the value of an expression over bn_bits(..) (nbits = bn_bits(n)) by that expression"""
+    if depth > 4 or not isinstance(k, tuple):
+        return k
+    if k and k[0] == "v" and len(k) == 2:
+        if k in keep:
+            return k
+        for a in st:
+            if a[0] == "rel" and a[1] == k and a[2] == "==" and bits_args(a[3]) and not (key_vars_k(a[3]) & set(keep)):
+                return subst_defs(a[3], st, depth + 1, keep)
+        return k
+    return tuple(subst_defs(x, st, depth + 1, keep) for x in k)
 
 
 def normX(k, X):
@@ -203,7 +218,7 @@ def check_fn(ctx, prog, chk, fn, top):
             if not digs:
                 continue
             Lk = digs[0][3]
-            S = key(fn, c[2][2])
+            S = subst_defs(key(fn, c[2][2]), st, keep=key_vars_k(Lk))
             sites += 1
             obj = "shift:%s" % re.sub(r"\s+", "", fn.fmt(c[2][2]))[:40]
             if E[1] in key_vars(S):
@@ -272,7 +287,7 @@ def check_fn(ctx, prog, chk, fn, top):
             Xs = set()
             for a in st:
                 if a[0] == "rel":
-                    Xs |= bits_args(a[1]) | bits_args(a[3])
+                    Xs |= bits_args(subst_defs(a[1], st, keep=key_vars_k(Lk))) | bits_args(subst_defs(a[3], st, keep=key_vars_k(Lk)))
             ok = False
             for X in Xs:
                 cons = [(normX(a, X), op, normX(b, X)) for a, op, b in constraints(st, Lk, X)]
